@@ -347,6 +347,27 @@ def tzx5a():
     return b'\x5aXTape!\x1a\x01\x14'
 
 
+def tzx26(offsets):
+    return b'\x26' + w16(len(offsets)) + b''.join(w16(o & 0xFFFF) for o in offsets)
+
+
+def tzx27():
+    return b'\x27'
+
+
+def tzx28(options):
+    body = bytes((len(options),)) + b''.join(w16(o & 0xFFFF) + bytes((len(t),)) + bytes(t) for o, t in options)
+    return b'\x28' + w16(len(body)) + body
+
+
+def tzx34():
+    return b'\x34' + bytes(8)
+
+
+def tzx40(kind, data):
+    return b'\x40' + bytes((kind,)) + w24(len(data)) + bytes(data)
+
+
 def pzx_block(tag, body):
     return tag + w32(len(body)) + body
 
@@ -523,6 +544,16 @@ def parse_file(fmt, path, start=1, stop=0, skip=()):
     return dict(exc=0, blocks=[project_block(fmt, b) for b in tape.blocks], warn=warn, tape=tape)
 
 
+def _skip_args(skip):
+    """--tape-skip takes one A[-B] range"""
+    skip = list(skip)
+    if not skip:
+        return []
+    if skip != list(range(skip[0], skip[-1] + 1)):
+        raise MachineryError('tapinfo can only skip a contiguous range of blocks: %r' % (skip,))
+    return ['--tape-skip', str(skip[0]) if len(skip) == 1 else '%d-%d' % (skip[0], skip[-1])]
+
+
 _HDR = re.compile(r'^(\d+):(?: (.*?))??(?: \(0x([0-9A-F]{2})\))?$')
 _LEN = re.compile(r'^  Length: (\d+)$')
 
@@ -536,8 +567,7 @@ def tapinfo_lines(fmt, path, start=1, stop=0, skip=()):
         args += ['--tape-start', str(start)]
     if stop:
         args += ['--tape-stop', str(stop)]
-    for a in skip:
-        args += ['--tape-skip', str(a)]
+    args += _skip_args(skip)
     buf = io.StringIO()
     err = io.StringIO()
     try:
@@ -580,8 +610,7 @@ def tapinfo_edges(path, start=1, stop=0, skip=(), max_edges=12000):
         args += ['--tape-start', str(start)]
     if stop:
         args += ['--tape-stop', str(stop)]
-    for a in skip:
-        args += ['--tape-skip', str(a)]
+    args += _skip_args(skip)
     orig = tapinfo.get_edges
     tapinfo.get_edges = spy
     buf = io.StringIO()
@@ -611,7 +640,7 @@ def file_obs(fmt, path, start=1, stop=0, skip=(), sig=True, writer='', wdata=(),
     p = parse_file(fmt, path, start, stop, tuple(skip))
     info = tapinfo_lines(fmt, path, start, stop, skip)
     o = dict(fmt=fmt, raw=raw, start=start, stop=stop, skip=list(skip), exc=p['exc'], parsed=p['blocks'], warn=p['warn'],
-             info=info['lines'], infoexc=info['exc'], writer=writer, wdata=[list(d) for d in wdata])
+             info=info['lines'], infoexc=info['exc'], writer=writer, wdata=[list(d) for d in wdata], wexc=0)
     if p['exc']:
         o['err'] = p['err']
     o['sig'] = tapinfo_edges(path, start, stop, skip, max_edges) if sig and not p['exc'] else dict(NOSIG)
@@ -650,24 +679,29 @@ def write(path, data):
     return path
 
 
-def family_writers(r, wd, tag, datas):
-    """byte blocks -> real write_tap and write_pzx; both parsed back (round trip), data must agree"""
+def written(fmt, path, datas, sig=True, max_edges=12000):
+    """byte blocks -> real write_tap / write_pzx -> everything the real code says about the file"""
     t = sk()
+    try:
+        (t.write_tap if fmt == 'tap' else t.write_pzx)(path, [list(d) for d in datas])
+    except Exception as e:  # noqa: BLE001 - a writer that fails is an observation
+        return dict(fmt=fmt, raw=[], start=1, stop=0, skip=[], exc=0, parsed=[], warn=0, info=[], infoexc=0, writer=fmt,
+                    wdata=[list(d) for d in datas], wexc=1, err='%s: %s' % (type(e).__name__, e), sig=dict(NOSIG))
+    return file_obs(fmt, path, writer=fmt, wdata=datas, sig=sig, max_edges=max_edges)
+
+
+def family_writers(r, wd, tag, datas, sig=True, key='writers'):
+    """byte blocks -> real write_tap and write_pzx; both parsed back (round trip), data must agree"""
     tap, pzx = os.path.join(wd, tag + '.tap'), os.path.join(wd, tag + '.pzx')
-    t.write_tap(tap, [list(d) for d in datas])
-    t.write_pzx(pzx, [list(d) for d in datas])
-    return dict(kind='files', key='writers', same=0, samedata=1,
-                files=[file_obs('tap', tap, writer='tap', wdata=datas), file_obs('pzx', pzx, writer='pzx', wdata=datas)])
+    return dict(kind='files', key=key, same=0, samedata=1, lens=[len(d) for d in datas],
+                files=[written('tap', tap, datas, sig), written('pzx', pzx, datas, sig)])
 
 
 def family_xfmt(r, wd, tag, datas):
     """one standard-speed tape written as TAP (real writer), TZX 0x10, TZX 0x11, TZX 0x12+0x13+0x14 and PZX (own
     writers): all must play the same edges. 1000 ms between blocks as TAP implies."""
-    t = sk()
     files = []
-    tap = os.path.join(wd, tag + '.tap')
-    t.write_tap(tap, [list(d) for d in datas])
-    files.append(file_obs('tap', tap, writer='tap', wdata=datas))
+    files.append(written('tap', os.path.join(wd, tag + '.tap'), datas))
     z10 = tzx_header() + b''.join(tzx10(d, 1000) for d in datas)
     files.append(file_obs('tzx', write(os.path.join(wd, tag + '-10.tzx'), z10)))
     z11 = tzx_header() + b''.join(tzx11(d, pilot_len=rom_pilot(d[0]), pause_ms=1000) for d in datas)
@@ -690,7 +724,8 @@ def family_xfmt(r, wd, tag, datas):
     return dict(kind='files', key='xfmt', same=1, samedata=1, files=files)
 
 
-TZX_INFO = ('group', 'text', 'archive', 'message', 'hardware', 'custom', 'jump', 'stop48', 'level', 'glue', 'loop')
+TZX_INFO = ('group', 'text', 'archive', 'message', 'hardware', 'custom', 'jump', 'stop48', 'level', 'glue', 'loop', 'group', 'loop',
+            'call', 'return', 'select', 'emu', 'snapshot')
 
 
 def tzx_info_block(r, kind):
@@ -712,6 +747,16 @@ def tzx_info_block(r, kind):
         return tzx2a()
     if kind == 'level':
         return tzx2b(r.randrange(2))
+    if kind == 'call':
+        return tzx26([r.choice((1, -1, 2)) for _ in range(r.randrange(0, 3))])
+    if kind == 'return':
+        return tzx27()
+    if kind == 'select':
+        return tzx28([(r.choice((1, 2)), [r.choice(b'opt') for _ in range(r.randrange(0, 4))]) for _ in range(r.randrange(0, 3))])
+    if kind == 'emu':
+        return tzx34()
+    if kind == 'snapshot':
+        return tzx40(r.randrange(2), rand_bytes(r, r.randrange(0, 5)))
     return tzx5a()
 
 
@@ -769,7 +814,8 @@ def select_opts(r, nblocks):
     if r.random() < 0.6:
         kw['stop'] = r.randrange(1, nblocks + 2)
     if r.random() < 0.5:
-        kw['skip'] = sorted(set(r.randrange(1, nblocks + 1) for _ in range(r.choice((1, 2)))))
+        a = r.randrange(1, nblocks + 1)
+        kw['skip'] = list(range(a, a + r.choice((1, 1, 2, 3))))          # one A[-B] range, as the command line takes
     return kw or {'start': 2}
 
 
@@ -820,3 +866,102 @@ def family_tap(r, wd, tag, opts=False):
     kw = select_opts(r, len(datas) + 1) if opts else {}
     return dict(kind='files', key='tap-' + mode + ('-opts' if kw else ''), same=0, samedata=0,
                 files=[file_obs('tap', write(os.path.join(wd, tag + '.tap'), raw), **kw)])
+
+
+# ------------------------------------------------------------------ workers (multiprocessing, fork)
+def enumerate_tapes(nalpha, maxblocks):
+    """index tuples of every tape of 0..maxblocks blocks over an alphabet of nalpha blocks"""
+    import itertools
+    for n in range(maxblocks + 1):
+        yield from itertools.product(range(nalpha), repeat=n)
+
+
+def replay_worker(args):
+    """pattern C: tapes of the bounded model -> real get_edges"""
+    name, alphabet, tapes, fes, gpols = args
+    out = []
+    for tp in tapes:
+        blocks = [alphabet[i] for i in tp]
+        hz = hazards(blocks)
+        for fe in fes:
+            for gp in gpols:
+                c = edge_case(blocks, fe, gp, hz)
+                c['family'] = name
+                out.append(c)
+    return out
+
+
+def edge_worker(args):
+    """random tapes beyond the bounds of the model (more blocks, 16-bit widths, any option values) -> real get_edges"""
+    import random
+    sd, n = args
+    r = random.Random(sd)
+    out = []
+    for _ in range(n):
+        fam = r.choice(('tzx', 'pzx'))
+        blocks = gen_tape(r, fam, r.random() < 0.6, r.choice((4, 4, 6)))
+        c = edge_case(blocks, r.choice((0, 0, 1, 3, 1000, 69888)), r.choice((0, 1, 2, 3)), hazards(blocks))
+        c['family'] = fam
+        out.append(c)
+    return out
+
+
+BIG_LENGTHS = (256, 6912, 65535)
+
+
+def file_worker(args):
+    """families of tape files -> real writers / parsers / tapinfo"""
+    import random
+    sd, wid, jobs, wd = args
+    r = random.Random(sd)
+    out = []
+    for k, (fam, arg) in enumerate(jobs):
+        tag = 'w%d-%d' % (wid, k)
+        c = None
+        for _ in range(20):
+            if fam == 'writers':
+                datas = std_blocks(r)
+                if arg == 'nonempty':
+                    datas = [d for d in datas if d] or [rand_bytes(r, 2)]
+                c = family_writers(r, wd, tag, datas, key='writers' if all(datas) else 'writers-empty')
+            elif fam == 'big':
+                n = arg
+                datas = [rand_bytes(r, n, r.choice((255, 0, 128, r.randrange(256))))]
+                c = family_writers(r, wd, tag, datas, sig=n <= 512, key='writers-big')
+            elif fam == 'xfmt':
+                flag = r.choice((255, 255, 128, 0, r.randrange(128, 256))) if arg == 'cheap' else r.choice((0, 255, 127, 128, 1, r.randrange(256)))
+                datas = [rand_bytes(r, r.choice((1, 2, 3, 17, 19)), flag)]
+                if arg != 'cheap' and r.random() < 0.4:
+                    datas.append(rand_bytes(r, r.choice((1, 2, 5)), r.choice((255, 128, r.randrange(128, 256)))))
+                c = family_xfmt(r, wd, tag, datas)
+            elif fam == 'tzx':
+                c = family_tzx(r, wd, tag, arg)
+            elif fam == 'pzx':
+                c = family_pzx(r, wd, tag, arg)
+            elif fam == 'tap':
+                c = family_tap(r, wd, tag, arg)
+            elif fam == 'puls':
+                c = family_puls(r, wd, tag, arg)
+            elif fam == 'puls-random':
+                ents = puls_boundary_entries()
+                c = family_puls(r, wd, tag, [(cnt, d if d < 70000 else 70000, f) for cnt, d, f in
+                                             (r.choice(ents) for _ in range(r.randrange(1, 5))) if cnt < 100])
+            else:
+                raise MachineryError('unknown family %r' % (fam,))
+            if c is not None:
+                break
+        if c is None:
+            raise MachineryError('family %s: no case generated' % fam)
+        out.append(c)
+    return out
+
+
+def load_alphabet(path):
+    """what TapeAlpha!DumpSpec wrote"""
+    import json
+    with open(path) as f:
+        d = json.load(f)
+    for b in d['alphabet']:
+        for k in ('pulses', 'data', 'zero', 'one'):
+            b[k] = [list(x) if isinstance(x, (list, tuple)) else x for x in b[k]]
+    return d
